@@ -4,7 +4,7 @@ CONSTANTS
   Times <- TimesQ
   Curves <- CurvesQ
   MaxSeg = 2
-  MaxPts = 2
+  MaxPts = 1
   QTicks = {24, 200}
 INVARIANT FormatWellFormed
 INVARIANT NodesEncoded
